@@ -176,6 +176,9 @@ type codeStore struct { // {{{
 	codes []uint32
 	lines []int
 	pc    int
+	// pc following the latest word that is data rather than an instruction
+	// (the block number after an extended SETLIST); 0 if there is none
+	datapc int
 }
 
 func (cd *codeStore) Add(inst uint32, line int) {
@@ -187,6 +190,13 @@ func (cd *codeStore) Add(inst uint32, line int) {
 		cd.lines[cd.pc] = line
 	}
 	cd.pc++
+}
+
+// AddData appends a word that is not an instruction: the peephole
+// rewrites that look at the last instruction must never decode it.
+func (cd *codeStore) AddData(word uint32, line int) {
+	cd.Add(word, line)
+	cd.datapc = cd.pc
 }
 
 func (cd *codeStore) AddABC(op int, a int, b int, c int, line int) {
@@ -287,7 +297,7 @@ func (cd *codeStore) LastPC() int {
 }
 
 func (cd *codeStore) Last() uint32 {
-	if cd.pc == 0 {
+	if cd.pc == 0 || cd.pc == cd.datapc {
 		return opInvalidInstruction
 	}
 	return cd.codes[cd.pc-1]
@@ -417,7 +427,7 @@ type funcContext struct {
 func newFuncContext(sourcename string, parent *funcContext) *funcContext {
 	fc := &funcContext{
 		Proto:           newFunctionProto(sourcename),
-		Code:            &codeStore{make([]uint32, 0, 1024), make([]int, 0, 1024), 0},
+		Code:            &codeStore{make([]uint32, 0, 1024), make([]int, 0, 1024), 0, 0},
 		Parent:          parent,
 		Upvalues:        newVarNamePool(0),
 		Block:           newCodeBlock(newVarNamePool(0), labelNoJump, nil, nil, 0),
@@ -1439,7 +1449,7 @@ func compileTableExpr(context *funcContext, reg int, ex *ast.TableExpr, ec *expc
 			}
 			code.AddABC(OP_SETLIST, tablereg, b, c, sline(line))
 			if c == 0 {
-				code.Add(uint32(blockno), sline(line))
+				code.AddData(uint32(blockno), sline(line))
 			}
 		}
 	}
